@@ -152,7 +152,7 @@ func versionStraddles(v verdict) bool {
 }
 
 func TestC12RoundTrip(t *testing.T) {
-	vlib.Check(t, 500, 2500, func(rt *rapid.T) {
+	vlib.Check(t, 400, 2500, func(rt *rapid.T) {
 		c := genSnap(rt, 300)
 		f, file, b := propRoundTrip(c)
 		cls := []string{"roundtrip", "roundtrip:" + sizeClass(len(file))}
